@@ -47,26 +47,31 @@ type c15Req struct {
 	Tmp     string            `json:"tmp"`     // directory for the capture files
 	Streams string            `json:"streams"` // "" / "file": os.Std* become files; "pipe": pipes
 	Wait    string            `json:"wait"`    // path: after the call wait (<= 60 s) for this file (written by the child's late descendant) before reading the captures
+	Calls   []c15Req          `json:"calls"`   // fn "group": the calls that run concurrently (fields fn, env, cmd, args, so, se, dump, hold)
+	Plan    []string          `json:"plan"`    // fn "group": events "s<i>" start call i and wait until its child has reported (or the call returned), "r<i>" release child i and wait for call i to return
+	Hold    string            `json:"hold"`    // group member: the file its child waits for
 	Kind    string            `json:"kind"`    // raw: child | fatal | fatalf | plain | nil | custom
 	Code    int               `json:"code"`
 }
 
 type c15Res struct {
-	Error     string          `json:"error,omitempty"`
-	Ran       *bool           `json:"ran"`
-	ErrNil    bool            `json:"err_nil"`
-	HasStatus bool            `json:"has_status"`
-	MgStatus  int             `json:"mg_status"`
-	ShStatus  int             `json:"sh_status"`
-	ShCmdRan  bool            `json:"sh_cmdran"`
-	ErrText   string          `json:"err_text"`
-	Text      string          `json:"text"`
-	OsStdout  string          `json:"os_stdout"`
-	OsStderr  string          `json:"os_stderr"`
-	BufOut    string          `json:"buf_out"`
-	BufErr    string          `json:"buf_err"`
-	Environ   []string        `json:"environ"`
-	Dump      json.RawMessage `json:"dump"`
+	Error        string          `json:"error,omitempty"`
+	Ran          *bool           `json:"ran"`
+	ErrNil       bool            `json:"err_nil"`
+	HasStatus    bool            `json:"has_status"`
+	MgStatus     int             `json:"mg_status"`
+	ShStatus     int             `json:"sh_status"`
+	ShCmdRan     bool            `json:"sh_cmdran"`
+	ErrText      string          `json:"err_text"`
+	Text         string          `json:"text"`
+	OsStdout     string          `json:"os_stdout"`
+	OsStderr     string          `json:"os_stderr"`
+	BufOut       string          `json:"buf_out"`
+	BufErr       string          `json:"buf_err"`
+	Environ      []string        `json:"environ"`
+	Dump         json.RawMessage `json:"dump"`
+	Group        []c15Res        `json:"group,omitempty"`         // fn "group": one answer per call
+	EnvironAfter []string        `json:"environ_after,omitempty"` // fn "group": os.Environ() after all calls returned
 	// raw: what the standard library says about the error
 	IsExitError bool `json:"is_exit_error"`
 	Exited      bool `json:"exited"`
@@ -211,6 +216,10 @@ func c15Do(q c15Req) (res c15Res) {
 		}
 		res.Dump = c15ReadDump(q.Dump)
 		return res
+	}
+
+	if q.Fn == "group" {
+		return c15Group(q, res)
 	}
 
 	// standard streams of the caller: os.Stdin / os.Stdout / os.Stderr are REASSIGNED for this call, to files or
@@ -393,4 +402,159 @@ func c15ReadDump(p string) json.RawMessage {
 	}
 	os.Remove(p)
 	return json.RawMessage(b)
+}
+
+// c15Invoke is one call of a group: results only (the standard streams are shared by the group).
+func c15Invoke(q c15Req) (res c15Res) {
+	var env map[string]string
+	if q.Env != nil {
+		env = map[string]string{}
+		for k, v := range q.Env {
+			env[c15Unhex(k)] = c15Unhex(v)
+		}
+	}
+	cmd := c15Unhex(q.Cmd)
+	args := make([]string, len(q.Args))
+	for i := range q.Args {
+		args[i] = c15Unhex(q.Args[i])
+	}
+	var rerr error
+	var text string
+	var bo, be bytes.Buffer
+	switch q.Fn {
+	case "Run":
+		rerr = sh.Run(cmd, args...)
+	case "RunV":
+		rerr = sh.RunV(cmd, args...)
+	case "RunWith":
+		rerr = sh.RunWith(env, cmd, args...)
+	case "RunWithV":
+		rerr = sh.RunWithV(env, cmd, args...)
+	case "Output":
+		text, rerr = sh.Output(cmd, args...)
+	case "OutputWith":
+		text, rerr = sh.OutputWith(env, cmd, args...)
+	case "Exec":
+		pick := func(s string, b *bytes.Buffer) io.Writer {
+			if s == "buf" {
+				return b
+			}
+			return nil
+		}
+		ran, e := sh.Exec(env, pick(q.So, &bo), pick(q.Se, &be), cmd, args...)
+		rerr = e
+		res.Ran = &ran
+	default:
+		res.Error = "bad fn " + q.Fn
+		return res
+	}
+	c15FillErr(&res, rerr)
+	res.Text = c15Hex(text)
+	res.BufOut = hex.EncodeToString(bo.Bytes())
+	res.BufErr = hex.EncodeToString(be.Bytes())
+	res.Dump = c15ReadDump(q.Dump)
+	return res
+}
+
+// c15Group runs the calls of q concurrently, overlapping as the plan says: the helper child of a call reports
+// (its dump file appears) and then waits for its hold file, so "start A, start B, release A, release B" really is
+// A and B in flight at the same time, A finishing first.
+func c15Group(q c15Req, res c15Res) c15Res {
+	fin, err := os.Open(os.DevNull)
+	if err != nil {
+		return c15Res{Error: err.Error()}
+	}
+	fout, err := ioutil.TempFile(q.Tmp, "c15-gout-")
+	if err != nil {
+		return c15Res{Error: err.Error()}
+	}
+	ferr, err := ioutil.TempFile(q.Tmp, "c15-gerr-")
+	if err != nil {
+		return c15Res{Error: err.Error()}
+	}
+	defer os.Remove(fout.Name())
+	defer os.Remove(ferr.Name())
+	for _, c := range q.Calls {
+		os.Remove(c.Dump)
+		os.Remove(c.Hold)
+	}
+	oin, oout, oerr := os.Stdin, os.Stdout, os.Stderr
+	os.Stdin, os.Stdout, os.Stderr = fin, fout, ferr
+	n := len(q.Calls)
+	results := make([]c15Res, n)
+	done := make([]chan struct{}, n)
+	released := make([]bool, n)
+	release := func(i int) {
+		if !released[i] {
+			released[i] = true
+			ioutil.WriteFile(q.Calls[i].Hold, []byte("go"), 0644)
+		}
+	}
+	waitDone := func(i int) {
+		if done[i] == nil {
+			return
+		}
+		select {
+		case <-done[i]:
+		case <-time.After(60 * time.Second):
+		}
+	}
+	for _, ev := range q.Plan {
+		if len(ev) < 2 {
+			continue
+		}
+		i, err := strconv.Atoi(ev[1:])
+		if err != nil || i < 0 || i >= n {
+			continue
+		}
+		switch ev[0] {
+		case 's':
+			if done[i] != nil {
+				continue
+			}
+			done[i] = make(chan struct{})
+			go func(i int) {
+				defer close(done[i])
+				results[i] = c15Invoke(q.Calls[i])
+			}(i)
+			// until the child has reported (it is running and holds) or the call is over
+		wait:
+			for k := 0; k < 15000; k++ {
+				if _, err := os.Stat(q.Calls[i].Dump); err == nil {
+					break
+				}
+				select {
+				case <-done[i]:
+					break wait
+				default:
+				}
+				time.Sleep(2 * time.Millisecond)
+			}
+		case 'r':
+			release(i)
+			waitDone(i)
+		}
+	}
+	for i := range q.Calls {
+		release(i)
+	}
+	for i := range q.Calls {
+		waitDone(i)
+	}
+	os.Stdin, os.Stdout, os.Stderr = oin, oout, oerr
+	fin.Close()
+	fout.Close()
+	ferr.Close()
+	for _, e := range os.Environ() {
+		res.EnvironAfter = append(res.EnvironAfter, c15Hex(e))
+	}
+	b, _ := ioutil.ReadFile(fout.Name())
+	res.OsStdout = hex.EncodeToString(b)
+	b, _ = ioutil.ReadFile(ferr.Name())
+	res.OsStderr = hex.EncodeToString(b)
+	res.Group = results
+	for _, c := range q.Calls {
+		os.Remove(c.Hold)
+	}
+	return res
 }
